@@ -1,6 +1,82 @@
-(* C01 — placeholder while the invariants are being proved (see Proofs/ExecProofs.v). *)
-From Coq Require Import List.
-From FB Require Import Model.Exec.
-Example C01_model_runs : exists nt s, run nt 1 (init nt) nil = Ok s.
-Proof. exists nil, (init nil). reflexivity. Qed.
-Print Assumptions C01_model_runs.
+(* C01 — Event flow conservation through the node tree.
+   Model: Model/Exec.v (scheduled small-step model of node.Context / executor.Execute / runNode), network =
+   the pruned context table produced by Model/Settle.flatten (compared with the real context tree on every
+   case).  [reachable nt T s] = s is reached from [init nt] by SOME schedule; every theorem below is for ALL
+   schedules, all node outcomes (pass / transform / filter / error / fanout / async completion in any order).
+   Only statements here; proofs in Proofs/Exec*.v. *)
+From Coq Require Import List ZArith Bool Arith.
+From FB Require Import Model.Exec Model.TraceSpec Model.ExecInv.
+From FB Require Proofs.ExecCount Proofs.ExecProps Proofs.ExecSpec Proofs.ExecTerminal.
+Import ListNotations.
+
+(* the global conservation law (no hypothesis on the network): for every channel c and item x, what the
+   observable trace entitles c to = enqueued + discarded at c's full buffer + still pending in some sender *)
+Theorem C01_conservation_law : forall nt T s, reachable nt T s ->
+  forall c x, produced nt c x (tr s)
+              = count_item x (offered (node s c)) + count_item x (dropped (node s c)) + pending c x s.
+Proof. intros nt T s H. exact (proj1 (ExecCount.count_inv_reachable nt T s H)). Qed.
+
+(* channel by channel in a well-formed network: [supply] is the source's emissions for a root, the parent's
+   results (each element of a fanout result, the single result of a sync/async node) for a child, the
+   parent's failure reports for an error handler *)
+Theorem C01_channel_conservation : forall nt T s c x,
+  wf_net nt = true -> reachable nt T s -> c < length nt ->
+  count_item x (supply nt c (tr s))
+  = count_item x (offered (node s c)) + count_item x (dropped (node s c)) + pending c x s.
+Proof. exact ExecProps.channel_conservation. Qed.
+
+Theorem C01_offered_is_buffered_or_handed_over : forall nt T s c x, reachable nt T s ->
+  count_item x (offered (node s c)) = count_item x (q (node s c)) + count_item x (entered c (tr s)).
+Proof. exact ExecProps.offered_split. Qed.
+
+(* nothing invented, nothing duplicated: a node never sees more copies of an item than its feeder produced *)
+Theorem C01_nothing_invented : forall nt T s c x,
+  wf_net nt = true -> reachable nt T s -> c < length nt ->
+  count_item x (entered c (tr s)) <= count_item x (supply nt c (tr s)).
+Proof. exact ExecProps.entered_le_supply. Qed.
+
+(* nothing lost without discard_on_full_buffer *)
+Theorem C01_no_loss_without_discard : forall nt T s c x,
+  wf_net nt = true -> reachable nt T s -> c < length nt -> ndisc (info nt c) = false ->
+  dropped (node s c) = []
+  /\ count_item x (supply nt c (tr s))
+     = count_item x (q (node s c)) + count_item x (entered c (tr s)) + pending c x s.
+Proof. exact ExecProps.no_loss_without_discard. Qed.
+
+(* each result is decided for each child exactly once; filtered / failed / deferred events for no child *)
+Theorem C01_each_child_each_result_once : forall nt n it es c x,
+  cnt_pair c x (deliveries nt n it (ORes es))
+  = cnt_nat c (nkids (info nt n)) * count_item x (map (fun e => (e, 0%Z)) es).
+Proof. exact ExecProps.each_child_each_result_once. Qed.
+Theorem C01_filtered_offers_nothing : forall nt n it, deliveries nt n it (ORes []) = [].
+Proof. exact ExecProps.filtered_offers_nothing. Qed.
+Theorem C01_failure_goes_to_own_handler_only : forall nt n it err d,
+  In d (deliveries nt n it (OFail err)) -> nhandler (info nt n) = Some (fst d) /\ snd d = (fst it, err).
+Proof. exact ExecProps.failure_goes_to_own_handler. Qed.
+
+(* at the end of a clean run the law is exact: every channel is empty, nothing is pending, and what a node was
+   handed plus what was discarded at its buffer is exactly what its feeder produced *)
+Theorem C01_clean_end_exact : forall nt T s c x,
+  ExecProps.good_net nt -> reachable nt T s -> mn s = MDone -> timedout s = false -> c < length nt ->
+  count_item x (supply nt c (tr s)) = count_item x (entered c (tr s)) + count_item x (dropped (node s c))
+  /\ q (node s c) = [] /\ pending c x s = 0.
+Proof. exact ExecProps.clean_end_exact. Qed.
+
+(* the decision procedure applied to the implementation's traces (Model/TraceSpec.v: clauses (1,_) "nothing
+   invented or duplicated", "offered exactly once / sub-multiset when discarding", "only nodes of the pruned
+   table are set up") accepts every run of the model *)
+Theorem C01_spec_sound : forall nt T s, wf_net nt = true -> forallb (fun x => Nat.ltb 0 (nworkers x)) nt = true ->
+  reachable nt T s -> mn s = MDone -> timedout s = false ->
+  trace_ok nt (tr s) = [] /\ terminal_ok nt (tr s) (map counters_of (nodes s)) = [].
+Proof. exact ExecTerminal.spec_sound_clean_run. Qed.
+
+Print Assumptions C01_conservation_law.
+Print Assumptions C01_channel_conservation.
+Print Assumptions C01_offered_is_buffered_or_handed_over.
+Print Assumptions C01_nothing_invented.
+Print Assumptions C01_no_loss_without_discard.
+Print Assumptions C01_each_child_each_result_once.
+Print Assumptions C01_filtered_offers_nothing.
+Print Assumptions C01_failure_goes_to_own_handler_only.
+Print Assumptions C01_clean_end_exact.
+Print Assumptions C01_spec_sound.
